@@ -41,3 +41,42 @@ Definition comma_free (s : bytes) : Prop := Forall (fun x => N.eqb x ch_comma = 
 Definition csv_text (s : bytes) (bs : list ubound) : Prop :=
   exists parts, parts <> [] /\ s = intercalate [ch_comma] parts
                 /\ Forall comma_free parts /\ Forall2 bound_text parts bs.
+
+(** ---------- format strings *)
+From TucModel Require Import Model.BoundsParse.
+
+(** text in which braces only occur doubled: non-brace bytes, "{{" and "}}" *)
+Inductive raw_text : bytes -> Prop :=
+| rx_nil : raw_text []
+| rx_byte x t : x <> ch_lbrace -> x <> ch_rbrace -> raw_text t -> raw_text (x :: t)
+| rx_lb t : raw_text t -> raw_text (ch_lbrace :: ch_lbrace :: t)
+| rx_rb t : raw_text t -> raw_text (ch_rbrace :: ch_rbrace :: t).
+
+(** the item a stretch of literal text becomes (nothing when empty), rendered by the four
+    replacements "{{"->"{", "}}"->"}", backslash-n->LF, backslash-t->TAB *)
+Definition filler_of (t : bytes) : list bof :=
+  match t with [] => [] | _ => [Filler (render_filler t)] end.
+
+(** The language the scanner accepts, as a grammar: literal text, then either the end or
+    '{' list '}' and the rest.  The list [c] may itself hold doubled braces (inside a
+    fallback); the three side conditions say how "{{" and "}}" next to the delimiting braces
+    are read: "{{" before a bound is literal text, and of a run of '}' that ends a bound the
+    first closes it exactly when the run is odd. *)
+Inductive fmt_items : bytes -> list bof -> Prop :=
+| fi_end t : raw_text t -> fmt_items t (filler_of t)
+| fi_bound t c rest bs its :
+    raw_text t -> raw_text c ->
+    (forall x, c <> ch_lbrace :: x) -> (forall x, c <> x ++ [ch_rbrace]) ->
+    Nat.even (run_len ch_rbrace rest) = true ->
+    csv_text c bs -> fmt_items rest its ->
+    fmt_items (t ++ ch_lbrace :: c ++ ch_rbrace :: rest) (filler_of t ++ map Bound bs ++ its).
+
+Definition brace_free (c : bytes) : Prop := Forall (fun x => x <> ch_lbrace /\ x <> ch_rbrace) c.
+
+(** The documented language: every '{...}' holds a list (no braces inside), braces
+    balance, "{{" and "}}" stand for literal braces. *)
+Inductive fmt_doc : bytes -> list bof -> Prop :=
+| fd_end t : raw_text t -> fmt_doc t (filler_of t)
+| fd_bound t c rest bs its :
+    raw_text t -> brace_free c -> csv_text c bs -> fmt_doc rest its ->
+    fmt_doc (t ++ ch_lbrace :: c ++ ch_rbrace :: rest) (filler_of t ++ map Bound bs ++ its).
